@@ -163,13 +163,20 @@ def check_pair(case, res):
                     bad('intersection-inside', 'inside both operands', repr(I), order=tag)
             if I.region != X.region or I.fixed != X.fixed or I.hard != X.hard:
                 bad('intersection-attributes', (X.region, X.fixed, X.hard), (I.region, I.fixed, I.hard))
-    # different regions: never an intersection
+    # different regions: never an intersection, but the common area and the overlap predicate are plain geometry
     A2, _ = mk(fam, ra, region='dsp')
     if (A2 * B) is not None or (B * A2) is not None:
         bad('intersection-regions', None, 'a rectangle for operands of different regions')
-    # same non-ground regions, flags: behaves as same region
-    A3, _ = mk(fam, ra, region='dsp', fixed=True, hard=True)
-    B3, _ = mk(fam, rb, region='dsp')
+    ab2, ba2 = A2.area_overlap(B), B.area_overlap(A2)
+    if not eq(ab2, common, t2) or ab2 != ba2:
+        bad('area_overlap-value', str(common), (ab2, ba2), regions='different')
+    if (common == 0 or float(common) > 100 * a_eps) and (A2.overlap(B) != (common > 0) or B.overlap(A2) != (common > 0)):
+        bad('overlap-predicate', common > 0, (A2.overlap(B), B.overlap(A2)), regions='different')
+    # same non-ground regions, flags: behaves as same region.  The two names are equal strings that are distinct
+    # objects (as names read from two YAML scalars are): regions match by value, not by identity
+    A3, _ = mk(fam, ra, region=_runtime_name('dsp'), fixed=True, hard=True)
+    B3, _ = mk(fam, rb, region=_runtime_name('dsp'))
+    assert A3.region == B3.region and A3.region is not B3.region
     I3 = A3 * B3
     if (exact or common > 0 or _apart(ea, eb)) and (I3 is not None) != (common > 0):
         bad('intersection-existence', common > 0, repr(I3), order='dsp')
@@ -227,6 +234,11 @@ def check_pair(case, res):
     kind = 'disjoint' if common == 0 and not exp_touch else 'touching' if common == 0 else \
         'identical' if ea == eb else 'nested' if (exp_in or xinside(eb, ea)) else 'crossing'
     res.case(kind, nontrivial=(kind != 'disjoint'))
+
+
+def _runtime_name(s):
+    """an equal but distinct (not interned) string object, like a name produced by a parser"""
+    return bytes(s, 'ascii').decode('ascii') if len(s) > 1 else s
 
 
 def _apart(ea, eb):
@@ -346,8 +358,8 @@ def check_single(case, res):
                 if msg:
                     bad('rectangle_grid', f'{nr}x{nc} equal pieces tiling the rectangle', msg, square=(nr == nc))
         # ---- cuttability
-        for ratio in (0.01, 0.1, 0.3):
-            fr = F(ratio).limit_denominator(100)
+        for ratio in (0.001, 0.01, 0.1, 0.3):
+            fr = F(ratio).limit_denominator(1000)
             cand_x = {f(i) for i in range(n + 1)}
             cand_y = set(cand_x)
             for k in (F(1, 2), F(9, 10), F(11, 10), F(2), F(5)):
